@@ -1,6 +1,24 @@
 /* C15 shim: -Wl,--wrap interposers (muggle_evloop_add_ctx, close, accept, read, write,
- * malloc family), the event log, the context / descriptor tables, fault switches and
- * leak accounting.  Owned by property C15. */
+ * poll, select, epoll_wait, malloc family), the event log, the context / descriptor tables,
+ * fault switches and leak accounting.  Owned by property C15.
+ *
+ * The event signal of the loop (eventfd) and the back-end's wait are part of the log:
+ *   sigw <ctx|x>   write to the signal (muggle_evloop_wakeup): by the hand-over of context <ctx>
+ *                  (thread-local tag set by the driver) or by anyone else (x: exit, plain wake-up)
+ *   sigr           read of the signal (muggle_ev_signal_clearup)
+ *   idle           the loop thread's poll / select / epoll_wait found NOTHING ready: it blocks
+ * Each of these lines is appended under the log lock together with the (non-blocking) system
+ * call it stands for, so the order of the lines is the order of the calls: the wait is first
+ * executed with timeout 0 under the lock ("idle" iff it returns 0), and only an empty result is
+ * followed by the real blocking call.  A non-empty zero-timeout result is returned as it is
+ * (epoll is edge-triggered: the report must not be asked for twice).
+ *
+ * The same object serves the scenarios run under the deterministic scheduler (harness/vsched;
+ * the driver is always linked with it): when the calling thread is a scheduled thread
+ * (vs_active()), exactly one thread runs at a time, so the log lock is not taken (it would only
+ * add scheduling points), signal read / write and every attempt of the wait are scheduling points,
+ * and a wait that finds nothing is repeated when the thread is scheduled again (as in
+ * harness/vsched/vs_io.c); "idle" is logged for the first empty attempt of each wait. */
 #define _GNU_SOURCE
 #include "c15_shim.h"
 #include <stdarg.h>
@@ -12,7 +30,17 @@
 #include <pthread.h>
 #include <unistd.h>
 #include <sys/socket.h>
+#include <poll.h>
+#include <sys/epoll.h>
+#include <sys/select.h>
 #include "muggle/c/event/event_loop.h"
+
+/* harness/vsched/vsched.c */
+int vs_active(void);
+void vs_point(void);
+void vs_after(void);
+int vs_others_runnable(void);
+void vs_io_deadlock(const char *what);
 
 /* ------------------------------------------------------------------ log */
 #define SH_LOGCAP (48u << 20)
@@ -31,8 +59,14 @@ ssize_t __real_read(int, void *, size_t);
 ssize_t __real_write(int, const void *, size_t);
 int __real_muggle_evloop_add_ctx(muggle_event_loop_t *, muggle_event_context_t *);
 
-void sh_lock(void) { pthread_mutex_lock(&g_mtx); }
-void sh_unlock(void) { pthread_mutex_unlock(&g_mtx); }
+int __real_poll(struct pollfd *fds, nfds_t n, int timeout);
+int __real_select(int nfds, fd_set *r, fd_set *w, fd_set *e, struct timeval *tv);
+int __real_epoll_wait(int epfd, struct epoll_event *ev, int maxev, int timeout);
+#include <sys/time.h>
+
+/* a scheduled thread never runs concurrently with another one: no lock (and no scheduling point) */
+void sh_lock(void) { if (!vs_active()) pthread_mutex_lock(&g_mtx); }
+void sh_unlock(void) { if (!vs_active()) pthread_mutex_unlock(&g_mtx); }
 
 static void log_append(const char *s, size_t n)
 {
@@ -113,6 +147,11 @@ void sh_ctx_dead_locked(int id)
 {
 	if (id >= 0 && id < g_nctx && g_ctx[id].live) { g_ctx[id].live = 0; g_nfree++; }
 }
+/* taken back by its owner after run() returned: not one of the frees the loop side owes */
+void sh_ctx_late_locked(int id)
+{
+	if (id >= 0 && id < g_nctx && g_ctx[id].live) g_ctx[id].live = 0;
+}
 int sh_ctx_allocs(void) { return g_nctx; }
 int sh_ctx_frees(void) { return g_nfree; }
 void sh_map_fd(int fd, int id) { if (fd >= 0 && fd < SH_MAXFD) g_fdmap[fd] = id; }
@@ -155,10 +194,71 @@ void sh_pipe_fds(int rfd, int wfd, unsigned long long seed, int rfrag, int wfrag
 }
 void sh_pipe_writer_id(int w) { t_writer = w; }
 
+/* ------------------------------------------------------------------ configurations without user callbacks */
+/* default allocator (the application did not call set_alloc_free): accepted contexts come from the library's
+ * own malloc and go to its own free; they are named when they first reach muggle_evloop_add_ctx ("alloc <id>")
+ * and their free is seen by the interposed free ("free <id>").  No cb_msg: on_read's default loop reads and
+ * discards; the reads of the loop thread on context descriptors are logged ("rd <id> <hex|eof|err>"). */
+static int g_default_alloc, g_log_reads;
+void sh_default_alloc(int on) { g_default_alloc = on; }
+void sh_log_reads(int on) { g_log_reads = on; }
+
+/* ------------------------------------------------------------------ event signal / back-end wait */
+static int g_sigfd = -1;
+__thread int sh_sig_tag = -1;          /* context id whose hand-over is in progress in this thread */
+static __thread int t_loop_thread;     /* this thread runs muggle_evloop_run */
+static long g_idle_count;              /* empty wait attempts of the loop thread */
+static int g_loop_blocked;             /* the loop thread found nothing ready and has not returned from its wait */
+void sh_signal_fd(int fd) { g_sigfd = fd; }
+void sh_loop_thread(int on) { t_loop_thread = on; }
+long sh_idle_count(void) { return __atomic_load_n(&g_idle_count, __ATOMIC_SEQ_CST); }
+int sh_loop_blocked(void) { return __atomic_load_n(&g_loop_blocked, __ATOMIC_SEQ_CST); }
+/* What the loop thread is waiting on, saved (under the log lock) when an attempt of its wait found
+ * nothing: the pollfd array / the read set / the epoll descriptor.  sh_loop_quiet() asks the kernel again
+ * about exactly that set, from another thread, with timeout 0 and WITHOUT consuming anything (poll and
+ * select are level-triggered; an epoll descriptor is itself pollable): the loop thread is quiet iff it is
+ * still inside that wait and nothing in the set is ready, i.e. nothing will end the wait.  This is a
+ * state test, not a time-out. */
+enum { WK_NONE = 0, WK_POLL, WK_SELECT, WK_EPOLL };
+#define SH_MAXWAIT 4096
+static int g_wait_kind;
+static struct pollfd g_wait_pfd[SH_MAXWAIT];
+static int g_wait_n;
+static fd_set g_wait_rset; static int g_wait_nfds;
+static int g_wait_epfd = -1;
+static long g_wait_epoch;
+long sh_wait_epoch(void) { return __atomic_load_n(&g_wait_epoch, __ATOMIC_SEQ_CST); }
+int sh_loop_quiet(void)
+{
+	if (!sh_loop_blocked()) return 0;
+	int quiet = 0;
+	sh_lock();
+	if (__atomic_load_n(&g_loop_blocked, __ATOMIC_SEQ_CST)) {
+		if (g_wait_kind == WK_POLL) {
+			static struct pollfd tmp[SH_MAXWAIT];
+			memcpy(tmp, g_wait_pfd, sizeof(struct pollfd) * (size_t)g_wait_n);
+			for (int i = 0; i < g_wait_n; i++) tmp[i].revents = 0;
+			int r = __real_poll(tmp, (nfds_t)g_wait_n, 0), ready = 0;
+			for (int i = 0; r > 0 && i < g_wait_n; i++) if (tmp[i].revents & ~POLLNVAL) ready = 1;
+			quiet = !ready && r >= 0;
+		} else if (g_wait_kind == WK_SELECT) {
+			fd_set rs = g_wait_rset; struct timeval z = { 0, 0 };
+			quiet = __real_select(g_wait_nfds, &rs, NULL, NULL, &z) == 0;
+		} else if (g_wait_kind == WK_EPOLL) {
+			struct pollfd p; p.fd = g_wait_epfd; p.events = POLLIN; p.revents = 0;
+			quiet = __real_poll(&p, 1, 0) == 0;
+		}
+	}
+	sh_unlock();
+	return quiet && sh_loop_blocked();
+}
+
 /* ------------------------------------------------------------------ reset */
 static long g_heap_live;
 void sh_reset(void)
 {
+	g_default_alloc = 0; g_log_reads = 0;
+	g_sigfd = -1; g_idle_count = 0; g_loop_blocked = 0; g_wait_kind = WK_NONE; g_wait_epfd = -1;
 	if (!g_log) g_log = (char *)__real_malloc(SH_LOGCAP);
 	g_loglen = 0; g_logover = 0;
 	g_nctx = 0; g_nfree = 0; g_badclose = 0;
@@ -176,6 +276,12 @@ int __wrap_muggle_evloop_add_ctx(muggle_event_loop_t *evloop, muggle_event_conte
 	int k = ++g_add_calls, mode = 0;
 	for (int i = 0; i < g_nadd_fault; i++) if (g_add_fault[i] == k) mode = g_add_mode[i];
 	int id = sh_ctx_id(ctx);
+	if (id < 0 && g_default_alloc) {
+		/* allocated by the library's default allocator on the accept path: first sight of it */
+		id = sh_ctx_new_locked(ctx);
+		sh_logf_locked("alloc %d", id);
+		drv_on_alloc(id, ctx);
+	}
 	if (id >= 0 && ctx->fd >= 0) sh_map_fd(ctx->fd, id);
 	sh_unlock();
 	int ret;
@@ -234,15 +340,44 @@ int __wrap_accept(int fd, struct sockaddr *addr, socklen_t *len)
 
 ssize_t __wrap_read(int fd, void *buf, size_t len)
 {
+	if (fd >= 0 && fd == g_sigfd) {
+		/* muggle_ev_signal_clearup */
+		int vs = vs_active();
+		if (vs) vs_point();
+		sh_lock();
+		ssize_t r = __real_read(fd, buf, len);
+		int e = errno;
+		sh_logf_locked("sigr");
+		sh_unlock();
+		if (vs) vs_after();
+		errno = e;
+		return r;
+	}
+	if (g_log_reads && t_loop_thread && fd >= 0 && sh_fd_owner(fd) >= 0) {
+		/* on_read's default loop (no cb_msg installed) */
+		ssize_t r = __real_read(fd, buf, len);
+		int e = errno, id = sh_fd_owner(fd);
+		if (r > 0) {
+			char pre[32];
+			snprintf(pre, sizeof(pre), "rd %d ", id);
+			sh_log_hex(pre, (const unsigned char *)buf, (size_t)r);
+			drv_on_read(id, (long)r);
+		} else if (r == 0) sh_logf("rd %d eof", id);
+		else if (e != EAGAIN && e != EWOULDBLOCK && e != EINTR) sh_logf("rd %d err", id);
+		errno = e;
+		return r;
+	}
 	if (fd != g_prfd || fd < 0) return __real_read(fd, buf, len);
 	sh_lock();
 	ssize_t r;
 	if (g_rfrag && len > 0) {
 		uint64_t x = prng();
 		if (x % 100 < (uint64_t)(g_rfrag >= 2 ? 35 : 15)) {
-			if (g_rpart) sh_logf_locked("R again");
+			/* nothing transferred: EAGAIN, or (every third time) EINTR - a signal interrupted the call */
+			int intr = ((x >> 40) % 3) == 0;
+			if (g_rpart) sh_logf_locked(intr ? "R intr" : "R again");
 			sh_unlock();
-			errno = EAGAIN;
+			errno = intr ? EINTR : EAGAIN;
 			return -1;
 		}
 		size_t want = 1 + (size_t)((x >> 8) % len);
@@ -262,15 +397,31 @@ ssize_t __wrap_read(int fd, void *buf, size_t len)
 
 ssize_t __wrap_write(int fd, const void *buf, size_t len)
 {
+	if (fd >= 0 && fd == g_sigfd) {
+		/* muggle_ev_signal_wakeup */
+		int vs = vs_active();
+		if (vs) vs_point();
+		sh_lock();
+		ssize_t r = __real_write(fd, buf, len);
+		int e = errno;
+		if (r != (ssize_t)len) sh_logf_locked("sigwfail");
+		else if (sh_sig_tag >= 0) sh_logf_locked("sigw %d", sh_sig_tag);
+		else sh_logf_locked("sigw x");
+		sh_unlock();
+		if (vs) vs_after();
+		errno = e;
+		return r;
+	}
 	if (fd != g_pwfd || fd < 0) return __real_write(fd, buf, len);
 	sh_lock();
 	ssize_t r;
 	if (g_wfrag && len > 0) {
 		uint64_t x = prng();
 		if (x % 100 < 15) {
-			sh_logf_locked("W %d again", t_writer);
+			int intr = ((x >> 40) % 3) == 0;
+			sh_logf_locked(intr ? "W %d intr" : "W %d again", t_writer);
 			sh_unlock();
-			errno = EAGAIN;
+			errno = intr ? EINTR : EAGAIN;
 			return -1;
 		}
 		size_t want = 1 + (size_t)((x >> 8) % len);
@@ -289,6 +440,114 @@ ssize_t __wrap_write(int fd, const void *buf, size_t len)
 		sh_logf_locked("W %d err", t_writer);
 	}
 	sh_unlock();
+	errno = e;
+	return r;
+}
+
+/* the back-end's wait of the loop thread: see the head of this file */
+static void wait_result(int r, int *first)
+{
+	if (r == 0) {
+		__atomic_fetch_add(&g_idle_count, 1, __ATOMIC_SEQ_CST);
+		if (*first) { sh_logf_locked("idle"); *first = 0; }
+		__atomic_fetch_add(&g_wait_epoch, 1, __ATOMIC_SEQ_CST);
+		__atomic_store_n(&g_loop_blocked, 1, __ATOMIC_SEQ_CST);
+	}
+}
+int __wrap_poll(struct pollfd *fds, nfds_t n, int timeout)
+{
+	if (!t_loop_thread) return __real_poll(fds, n, timeout);
+	int first = 1, r, e;
+	if (vs_active()) {
+		for (;;) {
+			vs_point();
+			r = __real_poll(fds, n, 0); e = errno;
+			wait_result(r, &first);
+			if (r == 0 && timeout != 0 && !vs_others_runnable()) vs_io_deadlock("io");
+			vs_after();
+			if (r != 0 || timeout == 0) break;
+		}
+	} else {
+		sh_lock();
+		r = __real_poll(fds, n, 0); e = errno;
+		if (r == 0) {
+			g_wait_kind = WK_POLL; g_wait_n = n > SH_MAXWAIT ? SH_MAXWAIT : (int)n;
+			memcpy(g_wait_pfd, fds, sizeof(struct pollfd) * (size_t)g_wait_n);
+		}
+		wait_result(r, &first);
+		sh_unlock();
+		if (r == 0 && timeout != 0) { r = __real_poll(fds, n, timeout); e = errno; }
+	}
+	__atomic_store_n(&g_loop_blocked, 0, __ATOMIC_SEQ_CST);
+	errno = e;
+	return r;
+}
+int __wrap_select(int nfds, fd_set *rs, fd_set *ws, fd_set *es, struct timeval *tv)
+{
+	if (!t_loop_thread) return __real_select(nfds, rs, ws, es, tv);
+	fd_set r0, w0, e0;
+	if (rs) r0 = *rs;
+	if (ws) w0 = *ws;
+	if (es) e0 = *es;
+	int nonblocking = tv && tv->tv_sec == 0 && tv->tv_usec == 0;
+	int first = 1, r, e;
+	struct timeval z;
+	if (vs_active()) {
+		for (;;) {
+			vs_point();
+			if (rs) *rs = r0;
+			if (ws) *ws = w0;
+			if (es) *es = e0;
+			z.tv_sec = 0; z.tv_usec = 0;
+			r = __real_select(nfds, rs, ws, es, &z); e = errno;
+			wait_result(r, &first);
+			if (r == 0 && !nonblocking && !vs_others_runnable()) vs_io_deadlock("io");
+			vs_after();
+			if (r != 0 || nonblocking) break;
+		}
+	} else {
+		sh_lock();
+		z.tv_sec = 0; z.tv_usec = 0;
+		r = __real_select(nfds, rs, ws, es, &z); e = errno;
+		if (r == 0) {
+			g_wait_kind = WK_SELECT; g_wait_nfds = nfds;
+			if (rs) g_wait_rset = r0; else FD_ZERO(&g_wait_rset);
+		}
+		wait_result(r, &first);
+		sh_unlock();
+		if (r == 0 && !nonblocking) {
+			if (rs) *rs = r0;
+			if (ws) *ws = w0;
+			if (es) *es = e0;
+			r = __real_select(nfds, rs, ws, es, tv); e = errno;
+		}
+	}
+	__atomic_store_n(&g_loop_blocked, 0, __ATOMIC_SEQ_CST);
+	errno = e;
+	return r;
+}
+int __wrap_epoll_wait(int epfd, struct epoll_event *ev, int maxev, int timeout)
+{
+	if (!t_loop_thread) return __real_epoll_wait(epfd, ev, maxev, timeout);
+	int first = 1, r, e;
+	if (vs_active()) {
+		for (;;) {
+			vs_point();
+			r = __real_epoll_wait(epfd, ev, maxev, 0); e = errno;
+			wait_result(r, &first);
+			if (r == 0 && timeout != 0 && !vs_others_runnable()) vs_io_deadlock("io");
+			vs_after();
+			if (r != 0 || timeout == 0) break;
+		}
+	} else {
+		sh_lock();
+		r = __real_epoll_wait(epfd, ev, maxev, 0); e = errno;
+		if (r == 0) { g_wait_kind = WK_EPOLL; g_wait_epfd = epfd; }
+		wait_result(r, &first);
+		sh_unlock();
+		if (r == 0 && timeout != 0) { r = __real_epoll_wait(epfd, ev, maxev, timeout); e = errno; }
+	}
+	__atomic_store_n(&g_loop_blocked, 0, __ATOMIC_SEQ_CST);
 	errno = e;
 	return r;
 }
@@ -315,6 +574,13 @@ void *__wrap_realloc(void *q, size_t n)
 }
 void __wrap_free(void *p)
 {
+	if (p && g_default_alloc) {
+		/* the library's default free of a context it allocated itself */
+		sh_lock();
+		int id = sh_ctx_id(p);
+		if (id >= 0) { sh_logf_locked("free %d", id); sh_ctx_dead_locked(id); }
+		sh_unlock();
+	}
 	if (p) __atomic_fetch_sub(&g_heap_live, 1, __ATOMIC_RELAXED);
 	__real_free(p);
 }
